@@ -36,6 +36,10 @@ pub fn judge(role: Role) -> impl Fn(&Outcome, &Outcome) -> Option<String> + Sync
             };
             return Some(format!("result {} differs from the in-memory result {}", show(&o.result), show(&base.result)));
         }
+        if o.parts != base.parts {
+            let d = o.parts.iter().zip(base.parts.iter()).find(|(a, b)| a != b).map(|(a, b)| format!("{}: {:?} vs in-memory {:?}", a.0, a.1.as_ref().map(|s| s.chars().take(60).collect::<String>()), b.1.as_ref().map(|s| s.chars().take(60).collect::<String>()))).unwrap_or_else(|| "different number of calls".into());
+            return Some(format!("session differs from the in-memory session at {d}"));
+        }
         if role == Role::Writer {
             if o.image != base.image {
                 let i = o.image.iter().zip(base.image.iter()).position(|(a, b)| a != b).unwrap_or(o.image.len().min(base.image.len()));
@@ -101,7 +105,7 @@ fn fin<T: std::fmt::Debug>(h: Handle, r: Result<std::io::Result<T>, String>) -> 
         Ok(Err(e)) => Err(e.to_string()),
         Err(p) => Err(format!("PANIC {p}")),
     };
-    (Outcome { result, image: h.data(), final_pos: h.pos() }, h)
+    (Outcome { result, image: h.data(), final_pos: h.pos(), parts: Vec::new() }, h)
 }
 
 /// estimated number of executions with at most b deviations among `a` alternatives
